@@ -14,11 +14,11 @@ Definition sml_quote (c : N) : bool := (c =? c_sq) || (c =? c_dq).
 
 (* ---------- SMLParser.parse_all ---------- *)
 (* cur: pending token (reversed); delim: 0 = not inside a literal, else the delimiter character.
-   At the end of the text a pending token is dropped (as written). *)
+   At the end of the text a pending token (e.g. a literal that is never closed) is a token too. *)
 Fixpoint sml_lex (cs : text) (cur : text) (delim : N) (acc : list text) : list text :=
   let flush acc := match cur with [] => acc | _ => rev cur :: acc end in
   match cs with
-  | [] => rev acc
+  | [] => rev (flush acc)
   | c :: r =>
     if negb (delim =? 0) then
       if c =? delim then sml_lex r [] 0 (rev (c :: cur) :: acc) else sml_lex r (c :: cur) delim acc
@@ -254,4 +254,6 @@ Fixpoint read_item (fuel : nat) (ts : list text) : res (val * list text) :=
 
 Definition from_sml (src : text) : res val :=
   let ts := sml_tokens src in
-  do r <- read_item (S (length ts)) ts; Ok (fst r).
+  do r <- read_item (S (length ts)) ts;
+  (* the text is exactly one item: anything behind it is an error *)
+  match snd r with [] => Ok (fst r) | _ => Err EValue end.
